@@ -45,6 +45,9 @@ pub mod serialization;
 #[macro_use]
 pub mod gc;
 
+#[cfg(gluon_verif)]
+pub mod verif;
+
 #[macro_use]
 pub mod api;
 pub mod channel;
